@@ -99,7 +99,7 @@ func TestC12_Slice(t *testing.T) {
 		// projection right-hand side, followed by further steps
 		var e ast.Expr
 		var doc jv.Val
-		place := rapid.IntRange(0, 5).Draw(t, "place")
+		place := rapid.IntRange(0, 6).Draw(t, "place")
 		switch place {
 		case 0:
 			doc = subj
@@ -117,9 +117,16 @@ func TestC12_Slice(t *testing.T) {
 		case 4: // piped
 			doc = jv.VObj([]jv.Member{{K: "a", V: subj}})
 			e = ast.Bin("|", ast.F("a"), &ast.Chain{Head: ast.Head{Kind: ast.HImplicit}, Steps: []ast.Step{s}})
-		default: // on a literal
+		case 5: // on a literal
 			doc = jv.VNull()
 			e = ast.Lit(subj).With(s)
+		default: // the same array walked several times in one expression
+			doc = jv.VObj([]jv.Member{{K: "a", V: subj}})
+			s2 := ast.Step{Kind: ast.SSlice, Start: optHostile(t, "start2", n), Stop: optHostile(t, "stop2", n)}
+			if rapid.Bool().Draw(t, "step2") {
+				s2.Stride = ast.I64(int64(gen.Pick(t, "stride2", []int{1, 2, -1, -2, 3})))
+			}
+			e = &ast.Chain{Head: ast.Head{Kind: ast.HMultiList, Items: []ast.Expr{ast.F("a").With(s), ast.F("a").With(s2), ast.F("a").With(s), ast.F("a")}}}
 		}
 		text := ast.RenderWith(e, gen.Chooser{T: t})
 		c.Case()
